@@ -2,7 +2,7 @@ SPECIFICATION Spec
 CONSTANTS
   Variants = {"best", "deadline"}
   Relays = {1, 2}
-  ProvSet <- MCProvNone2
+  FetchSet = {}
   Values = {1, 2}
   CfgSet <- MCCfgHist
   TableSet = {"A", "B"}
